@@ -1,8 +1,23 @@
-(* Properties/C17.v — property theorems only; each is closed by [exact] of a lemma
-   from Proofs/ and followed by Print Assumptions. *)
+(* Properties/C17.v — "Version helpers preserve ordering and PEP 440 semantics".
+   Property theorems only; each is closed by [exact] of a lemma from Proofs/ and followed by
+   Print Assumptions.
+
+   Vocabulary.  Strings are lists of code points.  [convert_version_to_int_str s] is the model of
+   convert_version_to_int on a str: re.sub with the GENERATED suffix regex and template, split on the
+   GENERATED separator, int() per part (Base/PyInt.py_int), reduce with the GENERATED radix; every
+   failure is ValueError.  [dotted v] = '.'.join(str(c) for c in v).  [suffix_alts], [suffix_d2]
+   are the alternatives and the trailing digit class of the generated suffix regex; [pred_ws],
+   [pred_ops], [pred_nw] the blank class, the operator alternatives and the version class of the
+   generated predicate regex; [comp_map] the generated operator table.  packaging.version is a
+   contract: an abstract type V with vparse (None = InvalidVersion, a ValueError), vle, veq, major. *)
+From Coq Require Import String.
 Require Import OV.Base.Bytes OV.Base.Py OV.Base.PyInt OV.Base.Str OV.Base.Regex.
-Require Import OV.Gen.Versionutils OV.Model.C17 OV.Proofs.C17.
+Require Import OV.Gen.Versionutils OV.Model.C17 OV.Model.C17_Spec.
+Require Import OV.Proofs.C04_Regex OV.Proofs.C17_Regex OV.Proofs.C17_Suffix OV.Proofs.C17_PredRe.
+Require Import OV.Proofs.C17 OV.Proofs.C17_Int OV.Proofs.C17_Str OV.Proofs.C17_Pred OV.Proofs.C17_Equiv.
 Open Scope Z_scope.
+
+(* ================================================================ tuples (round 1) *)
 
 (* convert_version_to_str (convert_version_to_int v) = v for every tuple of any
    length whose components lie in 0..999 and whose first component is non-zero *)
@@ -22,13 +37,99 @@ Theorem C17_order : forall a b : list Z,
 Proof. exact int_order_999. Qed.
 Print Assumptions C17_order.
 
-(* is_compatible(req, cur, same_major) <-> cur >= req and (same_major -> equal majors),
-   for whatever total order the version library supplies *)
+(* ================================================================ convert_version_to_int on strings *)
+
+(* exactly which component strings int() accepts:  blanks [+-]? digits(_digits)* blanks,
+   digits = Unicode decimal digits, blanks = the whitespace int() skips *)
+Theorem C17_int_accepts : forall s : str, py_int s <> None <-> int_literal s.
+Proof. exact py_int_accepts. Qed.
+Print Assumptions C17_int_accepts.
+
+(* a non-numeric component raises ValueError — and nothing else does: the result is ValueError
+   exactly when some '.'-separated part of the suffix-stripped string is not an int() literal *)
+Theorem C17_nonnumeric_ValueError : forall s : str,
+  convert_version_to_int_str s = Exn ValueError <->
+  exists part, In part (version_parts s) /\ ~ int_literal part.
+Proof. exact to_int_str_rejects. Qed.
+Print Assumptions C17_nonnumeric_ValueError.
+
+(* all parts numeric <-> an integer comes back, the radix fold of the parts' values *)
+Theorem C17_numeric_Ok : forall s : str,
+  (forall part, In part (version_parts s) -> int_literal part) <->
+  exists v, map_opt py_int (version_parts s) = Some v /\ v <> [] /\
+            convert_version_to_int_str s = Ok (fold_left (fun a y => a * radix_to_int + y) (tl v) (hd 0 v)).
+Proof. exact to_int_str_accepts. Qed.
+Print Assumptions C17_numeric_Ok.
+
+(* no other outcome from a string (the TypeError of the empty tuple cannot arise) *)
+Theorem C17_to_int_str_total : forall s : str,
+  (exists n, convert_version_to_int_str s = Ok n) \/ convert_version_to_int_str s = Exn ValueError.
+Proof. exact to_int_str_total. Qed.
+Print Assumptions C17_to_int_str_total.
+
+(* on a dotted decimal string the function is the tuple function (any integers, any length);
+   `$` also lets one trailing newline through *)
+Theorem C17_to_int_dotted : forall v : list Z, v <> [] ->
+  convert_version_to_int_str (dotted v) = tuple_to_int v /\
+  convert_version_to_int_str (dotted v ++ [10%N]) = tuple_to_int v.
+Proof. intros v H. split; [exact (to_int_dotted v H)|exact (to_int_dotted_nl v H)]. Qed.
+Print Assumptions C17_to_int_dotted.
+
+(* an alpha/beta/rc suffix on the last component is ignored: for every alternative of the generated
+   regex, followed by >= 1 characters of its digit class (Unicode digits), then the end of the string
+   or one final newline *)
+Theorem C17_suffix_ignored : forall (v : list Z) (sfx D tail : str),
+  v <> [] -> In sfx suffix_alts -> all_in suffix_d2 D = true -> D <> [] -> tail = [] \/ tail = [10%N] ->
+  convert_version_to_int_str (dotted v ++ sfx ++ D ++ tail) = convert_version_to_int_str (dotted v).
+Proof. exact suffix_ignored. Qed.
+Print Assumptions C17_suffix_ignored.
+
+(* the markers of the property text are alternatives of the generated regex ... *)
+Theorem C17_suffix_markers : incl [lit "a"; lit "alpha"; lit "b"; lit "beta"; lit "rc"] suffix_alts.
+Proof. exact spec_suffixes_in. Qed.
+Print Assumptions C17_suffix_markers.
+
+(* ... so: a / alpha / b / beta / rc followed by >= 1 ASCII digits is ignored *)
+Theorem C17_suffix_ignored_spec : forall (v : list Z) (sfx D : str),
+  v <> [] -> In sfx [lit "a"; lit "alpha"; lit "b"; lit "beta"; lit "rc"] -> all_ascii_digits D = true -> D <> [] ->
+  convert_version_to_int_str (dotted v ++ sfx ++ D) = convert_version_to_int_str (dotted v).
+Proof. exact suffix_ignored_spec. Qed.
+Print Assumptions C17_suffix_ignored_spec.
+
+(* the round trip and the order on strings *)
+Theorem C17_str_int_roundtrip : forall v : list Z,
+  v <> [] -> Forall (fun c => 0 <= c <= 999) v -> hd 1 v <> 0 ->
+  exists n, convert_version_to_int_str (dotted v) = Ok n /\ convert_version_to_str n = Some (dotted v).
+Proof. exact str_int_roundtrip. Qed.
+Print Assumptions C17_str_int_roundtrip.
+
+Theorem C17_str_order : forall a b : list Z,
+  a <> [] -> length a = length b ->
+  Forall (fun c => 0 <= c <= 999) a -> Forall (fun c => 0 <= c <= 999) b ->
+  exists na nb, convert_version_to_int_str (dotted a) = Ok na /\ convert_version_to_int_str (dotted b) = Ok nb /\
+                (na ?= nb) = lex_cmp a b.
+Proof. exact str_order. Qed.
+Print Assumptions C17_str_order.
+
+(* ================================================================ is_compatible *)
+
 Theorem C17_is_compatible : forall (V : Type) (vle : V -> V -> bool) (major : V -> Z) req cur sm,
   is_compatible V vle major req cur sm = true <->
   (vle req cur = true /\ (sm = true -> major req = major cur)).
 Proof. exact is_compatible_spec. Qed.
 Print Assumptions C17_is_compatible.
+
+(* on strings: ValueError when a version does not parse, else the reading above *)
+Theorem C17_is_compatible_str : forall (V : Type) (vparse : str -> option V) (vle : V -> V -> bool) (major : V -> Z) req cur sm,
+  ((vparse req = None \/ vparse cur = None) -> is_compatible_str V vparse vle major req cur sm = Exn ValueError) /\
+  (forall r c, vparse req = Some r -> vparse cur = Some c ->
+     exists b, is_compatible_str V vparse vle major req cur sm = Ok b /\
+               (b = true <-> (vle r c = true /\ (sm = true -> major r = major c)))).
+Proof. exact is_compatible_str_spec. Qed.
+Print Assumptions C17_is_compatible_str.
+
+(* ================================================================ VersionPredicate *)
+Open Scope N_scope.
 
 (* satisfied_by holds exactly when every comparison of the predicate does *)
 Theorem C17_satisfied_by : forall (V : Type) (vle veq : V -> V -> bool) preds v,
@@ -42,3 +143,97 @@ Theorem C17_comp_map_complete :
   forall o, In o [OpLt; OpLe; OpEq; OpGt; OpGe; OpNe] -> In o (map snd comp_map).
 Proof. exact comp_map_complete. Qed.
 Print Assumptions C17_comp_map_complete.
+
+(* the regex alternatives and the keys of the operator map coincide (no KeyError in satisfied_by,
+   and every operator of the map can be written) *)
+Theorem C17_regex_ops_are_map_keys :
+  (forall o, In o pred_ops -> exists op, assoc_str o comp_map = Some op) /\
+  (forall k op, In (k, op) comp_map -> In k pred_ops /\ assoc_str k comp_map = Some op).
+Proof. split; [exact ops_are_keys|]. intros k op H. split; [exact (keys_are_ops k op H)|exact (assoc_in k op H)]. Qed.
+Print Assumptions C17_regex_ops_are_map_keys.
+
+(* THE PARSER.  For every non-empty list of comparisons  blanks op blanks version blanks
+   (op a key of the generated map with operator [o]; version non-empty, of non-blank characters,
+   without comma; and, when nothing separates them, the version does not start with '=' — otherwise
+   "<" "=1" reads as "<=" "1"), joined by commas, the parser returns exactly the (operator, version
+   text) pairs in order. *)
+Theorem C17_parse_predicates : forall (cs : list cmp_text) (ops : list cmpop),
+  cs <> [] ->
+  Forall2 (fun c o =>
+     In (c_op c, o) comp_map /\
+     all_in pred_ws (c_lead c) = true /\ all_in pred_ws (c_mid c) = true /\ all_in pred_ws (c_trail c) = true /\
+     c_ver c <> [] /\ all_in pred_nw (c_ver c) = true /\ ~ In comma (c_ver c) /\
+     (c_mid c <> [] \/ hd 0 (c_ver c) <> 61)) cs ops ->
+  parse_predicates (join [comma] (map render_cmp cs)) = Some (combine ops (map c_ver cs)).
+Proof. exact parse_predicates_wf. Qed.
+Print Assumptions C17_parse_predicates.
+
+(* ... and __init__ then returns those operators with the parsed versions, or ValueError when
+   one of the version texts is not a version *)
+Theorem C17_predicate_init : forall (V : Type) (vparse : str -> option V) cs ops,
+  cs <> [] -> Forall2 wf_cmp cs ops ->
+  (forall vs, Forall2 (fun c v => vparse (c_ver c) = Some v) cs vs ->
+     predicate_init V vparse (join [comma] (map render_cmp cs)) = Ok (combine ops vs)) /\
+  (forall c, In c cs -> vparse (c_ver c) = None ->
+     predicate_init V vparse (join [comma] (map render_cmp cs)) = Exn ValueError).
+Proof. intros V vparse cs ops H1 H2. split; [intros vs; exact (init_wf V vparse cs ops vs H1 H2)|intros c; exact (init_bad_version V vparse cs ops c H1 H2)]. Qed.
+Print Assumptions C17_predicate_init.
+
+(* exactly which parts the generated regex accepts (`^\s*`, `\s*$` admit newlines: they are blanks) *)
+Theorem C17_part_accepted : forall part : str,
+  psplit part <> None <->
+  exists a1 o a2 ver a3, part = a1 ++ o ++ a2 ++ ver ++ a3 /\ In o pred_ops /\
+    all_in pred_ws a1 = true /\ all_in pred_ws a2 = true /\ all_in pred_nw ver = true /\ ver <> [] /\ all_in pred_ws a3 = true.
+Proof. exact part_accepted. Qed.
+Print Assumptions C17_part_accepted.
+
+(* a malformed predicate raises ValueError: any comma-separated part the regex rejects *)
+Theorem C17_malformed_predicate_ValueError : forall (V : Type) (vparse : str -> option V) s part,
+  In part (split_char comma s) -> psplit part = None -> predicate_init V vparse s = Exn ValueError.
+Proof. exact init_malformed. Qed.
+Print Assumptions C17_malformed_predicate_ValueError.
+
+(* ... the rejected parts, by family: empty or blank (the empty predicate string, ",," and
+   leading/trailing commas produce such parts — nothing filters them out) *)
+Theorem C17_reject_blank : forall part, all_in pred_ws part = true -> psplit part = None.
+Proof. exact reject_blank. Qed.
+Print Assumptions C17_reject_blank.
+
+(* no operator / unknown operator: after the leading blanks no alternative of the regex is a prefix *)
+Theorem C17_reject_no_operator : forall part,
+  (forall o, In o pred_ops -> prefixb o (snd (span_cs pred_ws part)) = false) -> psplit part = None.
+Proof. exact reject_no_op. Qed.
+Print Assumptions C17_reject_no_operator.
+
+(* empty version (for "<=" and ">=" the hypothesis fails, and indeed ">=" alone is read as ">" "=":
+   see parse_examples) *)
+Theorem C17_reject_empty_version : forall a1 o a2,
+  all_in pred_ws a1 = true -> In o pred_ops -> all_in pred_ws a2 = true ->
+  (forall x, In x pred_ops -> prefixb x (o ++ a2) = true -> x = o) ->
+  psplit (a1 ++ o ++ a2) = None.
+Proof. exact reject_empty_ver. Qed.
+Print Assumptions C17_reject_empty_version.
+
+(* blanks inside the version *)
+Theorem C17_reject_inner_whitespace : forall a1 o a2 v1 w v2 a3,
+  all_in pred_ws a1 = true -> In o pred_ops -> v1 <> [] -> all_in pred_nw v1 = true ->
+  w <> [] -> all_in pred_ws w = true -> v2 <> [] -> all_in pred_nw v2 = true ->
+  (forall x, In x pred_ops -> prefixb x (o ++ a2 ++ v1 ++ w ++ v2 ++ a3) = true -> (length x < length (o ++ a2 ++ v1))%nat) ->
+  psplit (a1 ++ o ++ a2 ++ v1 ++ w ++ v2 ++ a3) = None.
+Proof. exact reject_inner_blank. Qed.
+Print Assumptions C17_reject_inner_whitespace.
+
+(* __init__ returns a list or raises ValueError, nothing else *)
+Theorem C17_predicate_init_total : forall (V : Type) (vparse : str -> option V) s,
+  (exists l, predicate_init V vparse s = Ok l) \/ predicate_init V vparse s = Exn ValueError.
+Proof. exact init_total. Qed.
+Print Assumptions C17_predicate_init_total.
+
+(* satisfied_by on a version string *)
+Theorem C17_satisfied_by_str : forall (V : Type) (vparse : str -> option V) (vle veq : V -> V -> bool) preds vs,
+  (vparse vs = None -> predicate_satisfied_by V vparse vle veq preds vs = Exn ValueError) /\
+  (forall v, vparse vs = Some v ->
+     exists b, predicate_satisfied_by V vparse vle veq preds vs = Ok b /\
+               (b = true <-> forall p, In p preds -> cmp_holds V vle veq (fst p) v (snd p) = true)).
+Proof. exact satisfied_by_str_spec. Qed.
+Print Assumptions C17_satisfied_by_str.
